@@ -2,6 +2,7 @@ import Dcg.Proofs.Types
 import Dcg.Proofs.Rename
 import Dcg.Proofs.SpellOp
 import Dcg.Proofs.NoneOnce
+import Dcg.Proofs.FieldOpt
 /-
 C13 — type annotations are well-formed and mean the same in every spelling.
 Only property theorems live here; helper lemmas are in Dcg/Proofs/Types.lean.
@@ -14,7 +15,7 @@ expression; `print`/`denote` (Sem.Typing) are the syntax and the meaning of typi
 -/
 namespace Dcg.Props.C13
 open Dcg.Model.Types Dcg.Model.HintExpr Dcg.Proofs.Types Dcg.Proofs.Cover
-open Dcg.Proofs.TypesOp Dcg.Proofs.HintOp Dcg.Proofs.PrintInj Dcg.Proofs.SpellOp Dcg.Proofs.NoneOnce
+open Dcg.Proofs.TypesOp Dcg.Proofs.HintOp Dcg.Proofs.PrintInj Dcg.Proofs.SpellOp Dcg.Proofs.NoneOnce Dcg.Proofs.FieldOpt
 open Dcg.Sem.Typing hiding Str sNone sComma sPipe
 
 def lit (s : String) : Str := s.toList
@@ -257,6 +258,90 @@ theorem none_once_full_false : ¬ NoneOnce := by
 theorem union_of_none_is_not_an_expression :
     (typeHint typingO (.mk { isList := true } none [leaf "None", leaf "None"])).1 = lit "Optional[List[Union[]]]" ∧
     (typeHint operatorO (.mk { isList := true } none [leaf "None", leaf "None"])).1 = lit "List | None" := by
+  decide
+
+/-! ### No doubly wrapped optional in the `Optional[…]`/`Union[…]` spelling: the type, and the field on top of it -/
+
+/-- PARTIAL — `no_double_optional` for the typing spelling (each of the four container spellings): for every
+tree with plain names inside `optRegion` (decidable, Model/HintInv: at every node that writes its members
+without a container of its own, no member hint reaches an `Optional[…]` through directly nested `Union[…]`s —
+known finding C13-F2 lives outside), the text `DataType.type_hint` builds is the printed form of a well-formed
+expression that contains no `Optional[Optional[…]]` anywhere (`noDbl`). -/
+theorem no_double_optional_typing_partial (o : Opts) (ho : o.unionOp = false) (t : DT)
+    (hw : wfTree t = true) (hr : optRegion o t = true) :
+    (typeHint o t).1 = print (hintE o t).1 ∧ wfU (hintE o t).1 = true ∧ noDbl (hintE o t).1 = true :=
+  ⟨(typeHint_eq_print_typing o ho t hw).1, (typeHint_typing o ho t hw).2, (noDbl_hintE o ho t hr).1⟩
+
+/-- non-vacuity: an optional dict of an optional union with a list-of-optional member and a nested union: optional
+members under a container of their own are inside the region -/
+example :
+    let t : DT := .mk { isOptional := true, isDict := true } none
+      [.mk {} none [.mk { isList := true } none [leaf "int" true], .mk {} none [leaf "str", leaf "Foo"], leaf "None"]]
+    wfTree t = true ∧ optRegion typingO t = true ∧
+    (typeHint typingO t).1 = lit "Optional[Dict[str, Optional[Union[List[Optional[int]], Union[str, Foo]]]]]" := by
+  decide
+
+/-- FULL STATEMENT at field level (kept visible; false of the code): the annotation of a FIELD — the decision of
+`DataModelFieldBase.type_hint` (`required` / `nullable` / `type_has_null` / default factory) on top of the type's
+own hint — never contains a doubly wrapped optional, for every tree whose own hint has none. -/
+def FieldNoDoubleOptional : Prop :=
+  ∀ (o : Opts) (fb : FieldBits) (t : DT), wfTree t = true → optRegion o t = true → noDbl (fieldE o fb t) = true
+
+/-- PARTIAL — THE FIELD, typing spelling: for every tree with plain names inside `optRegion` that satisfies the
+PARSER-OUTPUT INVARIANT `anyContPlain` ("a `DataType` with `type == 'Any'` and `is_dict` / `is_list` / `is_set` is
+never itself optional; optionality sits on a wrapper node" — the two guards of the code that compare
+`DataType.type` with `'Any'` mean "renders as `Any`" and are right exactly then; checked by the driver on every
+tree the real JSON Schema parser produces in the end-to-end campaign), and EVERY field setting, the text
+`DataModelFieldBase.type_hint` builds is the printed form of the well-formed expression `fieldE`, and that
+expression contains no `Optional[Optional[…]]`: the field wraps only what the type has not wrapped. -/
+theorem field_no_double_optional_partial (o : Opts) (ho : o.unionOp = false) (fb : FieldBits) (t : DT)
+    (hw : wfTree t = true) (hi : anyContPlain t = true) (hr : optRegion o t = true) :
+    fieldTypeHint o fb t = print (fieldE o fb t) ∧ wfU (fieldE o fb t) = true ∧ noDbl (fieldE o fb t) = true :=
+  ⟨(fieldTypeHint_typing o ho fb t hw).1, (fieldTypeHint_typing o ho fb t hw).2, noDbl_fieldE o ho fb t hi hr⟩
+
+/-- non-vacuity: what the parser builds for `type: ["object", "null"]` (a one-member wrapper that carries the
+optional flag around the shared `Dict[str, Any]` entry of the type map), as a field that is not required, and as
+an alternative of an `anyOf` next to `str` in a required nullable field -/
+example :
+    let free : DT := .mk { ty := lit "Any", isDict := true } none []
+    let t : DT := .mk { isOptional := true } none [free]
+    let u : DT := .mk {} none [.mk {} none [free], leaf "str"]
+    wfTree t = true ∧ anyContPlain t = true ∧ optRegion typingO t = true ∧
+    fieldTypeHint typingO {} t = lit "Optional[Dict[str, Any]]" ∧
+    wfTree u = true ∧ anyContPlain u = true ∧ optRegion typingO u = true ∧
+    fieldTypeHint typingO { required := true, typeHasNull := true } u = lit "Optional[Union[Dict[str, Any], str]]" := by
+  decide
+
+/-- REFUTATION of the full field-level statement (known finding C13-F5, now with its hypothesis): the tree the
+invariant excludes — the `Dict[str, Any]` entry ITSELF flagged optional — has a clean hint of its own
+(`Optional[Dict[str, Any]]`, inside `optRegion`), and the field wraps it a second time because
+`data_type.type != ANY` reads the raw type; the `|` spelling gives `Dict[str, Any] | None`. -/
+theorem optional_any_container_field_double :
+    let t : DT := .mk { ty := lit "Any", isOptional := true, isDict := true } none []
+    let fb : FieldBits := { nullable := some true, required := true }
+    wfTree t = true ∧ optRegion typingO t = true ∧ anyContPlain t = false ∧
+    (typeHint typingO t).1 = lit "Optional[Dict[str, Any]]" ∧
+    fieldTypeHint typingO fb t = lit "Optional[Optional[Dict[str, Any]]]" ∧
+    noDbl (fieldE typingO fb t) = false ∧
+    fieldTypeHint operatorO fb t = lit "Dict[str, Any] | None" := by
+  decide
+
+theorem field_no_double_optional_full_false : ¬ FieldNoDoubleOptional := by
+  intro h
+  have := h typingO { nullable := some true, required := true }
+    (.mk { ty := lit "Any", isOptional := true, isDict := true } none []) (by decide) (by decide)
+  rw [optional_any_container_field_double.2.2.2.2.2.1] at this
+  exact absurd this (by decide)
+
+/-- both hypotheses are doing work: outside `optRegion` (C13-F2: a member that is already `Optional[…]` passed
+through a one-member node) the field doubles the wrapper although the invariant holds; and the C13-F2 witnesses of
+the type-level statement are outside the region. -/
+theorem field_region_is_needed :
+    let t : DT := .mk {} none [leaf "int" true]
+    wfTree t = true ∧ anyContPlain t = true ∧ optRegion typingO t = false ∧
+    fieldTypeHint typingO { nullable := some true } t = lit "Optional[Optional[int]]" ∧
+    optRegion typingO (.mk { isOptional := true } none [leaf "int" true]) = false ∧
+    optRegion typingO (.mk { isOptional := true } none [leaf "int" true, leaf "str"]) = false := by
   decide
 
 /-! ### The spelling does not change the meaning -/
